@@ -6,6 +6,7 @@
 -/
 import GocoinV.Model.WalletKeys
 import GocoinV.Proofs.C14Bip39
+import GocoinV.Proofs.C14Bip39U
 import GocoinV.Proofs.C14HD
 import GocoinV.Proofs.C14Wallet
 namespace GocoinV.Props.C14
@@ -70,6 +71,24 @@ theorem bip39_checksum_detects (C : WalletCrypto) (e : Bytes) (cs chk : Nat)
 
 /-- non-vacuity of the hypotheses of `bip39_checksum_detects` -/
 example : (List.replicate 16 (0 : UInt8)).length = 4 * 4 ∧ 4 ≤ 4 ∧ 4 ≤ 8 ∧ 3 < 2 ^ 4 := by decide
+
+/-- Uniqueness (the strong form of "the checksum detects errors"): whatever `EntropyFromMnemonic`
+    accepts is, word for word, the sentence that `NewMnemonic` generates for the entropy it returns. So a
+    sentence in which any word was replaced, dropped, added or moved is accepted only if it happens to BE
+    the generated sentence of some (other) entropy — there are no "almost valid" sentences, no accepted
+    sentence with a word outside the list, and white space is the only freedom. -/
+theorem bip39_accepts_only_generated (C : WalletCrypto) (m e : Bytes)
+    (h : Bip39.entropyFromMnemonic C m = .ok e) :
+    Bip39.newMnemonic C e = .ok (Bip39.joinSp (Bip39.fields m)) := by
+  obtain ⟨cs, h4, h8, hl, hf⟩ := entropy_unique C m e h
+  rw [newMnemonic_sentence C e cs hl h4 h8, hf]
+  rfl
+
+/-- non-vacuity: by `bip39_roundtrip` every generated sentence is accepted, so the hypothesis holds e.g.
+    for the sentence of 16 zero bytes under any hash function -/
+example (C : WalletCrypto) : ∃ m, Bip39.entropyFromMnemonic C m = .ok (List.replicate 16 0) := by
+  obtain ⟨m, _, h⟩ := bip39_roundtrip C (List.replicate 16 0) (Or.inl (by simp))
+  exact ⟨m, h⟩
 
 /-! ### BIP32 -/
 
@@ -202,6 +221,44 @@ theorem path_walk_spec (C : WalletCrypto) (xs : List Nat) (root w' : HDWallet) (
                  child C pw (xs.getLast?.getD 0) = .ok w') :=
   walkPath_spec C xs root w' none prv' h
 
+/-- The wallet's path walk IS BIP32 private derivation along the path: for a well-formed private root
+    (scalar k in 1..n−1), a path of indexes < 2³², if BIP32's iterated CKDpriv is defined along the whole
+    path and yields (k', c'), then iterated `Child` (= `walkPath`, see `path_walk_spec`) yields the
+    extended key with key 00‖ser256(k'), chain code c' and the same version. Named hypothesis about the
+    reference curve: `hfin` (j·G is a finite point for 0 < j < n — a consequence of G having order n). -/
+theorem derive_is_bip32 (C : WalletCrypto) (path : List Nat) (w : HDWallet) (k k' : Nat) (c' : Bytes)
+    (hw : PrivWF w k) (hk : 0 < k ∧ k < Secp.n)
+    (hfin : ∀ j, 0 < j → j < Secp.n → ∃ P, Secp.mul j Secp.G = some P)
+    (hpath : ∀ i ∈ path, i < 2 ^ 32)
+    (hspec : Spec.Bip32.derivePriv C.hmac512 (k, w.chCode) path = some (k', c')) :
+    ∃ w', derive C w path = .ok w' ∧ w'.key = 0 :: Spec.Bip32.ser256 k' ∧ w'.chCode = c' ∧ w'.pfx = w.pfx := by
+  induction path generalizing w k with
+  | nil =>
+    simp only [Spec.Bip32.derivePriv, Option.some.injEq, Prod.mk.injEq] at hspec
+    obtain ⟨rfl, rfl⟩ := hspec
+    exact ⟨w, rfl, hw.2.1, rfl, rfl⟩
+  | cons i t ih =>
+    simp only [Spec.Bip32.derivePriv] at hspec
+    cases hs : Spec.Bip32.ckdPriv C.hmac512 k w.chCode i with
+    | none => simp [hs] at hspec
+    | some kc =>
+      obtain ⟨k1, c1⟩ := kc
+      simp only [hs] at hspec
+      obtain ⟨P, hP⟩ := hfin k hk.1 hk.2
+      have hi := hpath i List.mem_cons_self
+      have hchild := ckd_priv_spec C w k i k1 c1 P hw hi hP hs
+      have hr := ckdPriv_range _ _ _ _ _ _ hs
+      have hw1 : PrivWF { pfx := w.pfx, depth := (w.depth + 1) % 256, idx := i, chCode := c1,
+                          checksum := Spec.Bip32.fingerprint C.hash160 (Spec.Bip32.point k),
+                          key := 0 :: Spec.Bip32.ser256 k1 } k1 :=
+        ⟨hw.1, rfl, Nat.lt_trans hr.2 (by decide)⟩
+      obtain ⟨w', e1, e2, e3, e4⟩ := ih _ k1 hw1 hr (fun x hx => hpath x (List.mem_cons_of_mem _ hx)) hspec
+      exact ⟨w', by simp [derive, hchild, e1], e2, e3, e4⟩
+
+/-- non-vacuity of `derive_is_bip32`'s hypotheses: scalar 1, the empty path -/
+example (C : WalletCrypto) : Spec.Bip32.derivePriv C.hmac512 (1, List.replicate 32 0) [] = some (1, List.replicate 32 0) ∧
+    0 < 1 ∧ 1 < Secp.n := ⟨rfl, by decide, by decide⟩
+
 /-- non-vacuity: the empty path (hdpath "m/x") succeeds -/
 example (C : WalletCrypto) (root : HDWallet) : walkPath C [] root none = .ok (root, none) := rfl
 
@@ -220,6 +277,33 @@ theorem key_list_spec (C : WalletCrypto) (hdwal : HDWallet) (last : Nat) (pre : 
 /-- non-vacuity: zero keys -/
 example (C : WalletCrypto) (w : HDWallet) : type4Pass C w 0 [] 0 0 = .ok [] := rfl
 
+/-- hdsubs, one step: sub-account number `sub` re-derives the account from the remembered parent at index
+    (prvidx + sub) mod 2³² — the element before the last one of the path advanced by `sub` — lists `keycnt`
+    keys of it exactly like the first pass, and continues with sub+1. -/
+theorem hdsubs_step_spec (C : WalletCrypto) (prvwal : HDWallet) (prvidx last keycnt k sub : Nat) (pre : Bytes)
+    (ks : List (Bytes × Bytes)) (h : type4Subs C prvwal prvidx last keycnt (k + 1) sub pre = .ok ks) :
+    ∃ acct ks0 rest, child C prvwal ((prvidx + sub) % 2 ^ 32) = .ok acct ∧
+      type4Pass C acct last (subLabel pre prvidx sub) keycnt 0 = .ok ks0 ∧
+      type4Subs C prvwal prvidx last keycnt k (sub + 1) (subLabel pre prvidx sub) = .ok rest ∧
+      ks = ks0 ++ rest := by
+  simp only [type4Subs] at h
+  cases hc : child C prvwal ((prvidx + sub) % 2 ^ 32) with
+  | error e => simp [hc] at h
+  | ok acct =>
+    simp only [hc] at h
+    cases hp : type4Pass C acct last (subLabel pre prvidx sub) keycnt 0 with
+    | error e => simp [hp] at h
+    | ok ks0 =>
+      simp only [hp] at h
+      cases hr : type4Subs C prvwal prvidx last keycnt k (sub + 1) (subLabel pre prvidx sub) with
+      | error e => simp [hr] at h
+      | ok rest =>
+        simp only [hr, Except.ok.injEq] at h
+        exact ⟨acct, ks0, rest, rfl, hp, rfl, h.symm⟩
+
+/-- non-vacuity: no further sub-account -/
+example (C : WalletCrypto) (w : HDWallet) : type4Subs C w 0 0 1 0 1 [] = .ok [] := rfl
+
 /-! ### round trips -/
 
 /-- `StringWallet(w.Serialize())` at the byte level: for every well-formed extended key (known version
@@ -230,12 +314,12 @@ theorem serialize_roundtrip_bytes (C : WalletCrypto) (w : HDWallet) (hw : SerWF 
     (hlen : ∀ b, (C.shaHash b).length = 32) : parseBytes C (serialize C w) = .ok w :=
   parseBytes_serialize C w hw hlen
 
-/-- `StringWallet(w.String()) = w` for every well-formed extended key, given the Base58 round trip of the
-    82 serialized bytes (named hypothesis `hb58`: Decodeb58(Encodeb58 b) = b is C15's theorem). -/
+/-- `StringWallet(w.String()) = w` for every well-formed extended key (Base58 layer included: the
+    Base58 round trip is C15's theorem `Base58.decode_encode`, imported, not assumed). -/
 theorem serialize_roundtrip (C : WalletCrypto) (w : HDWallet) (hw : SerWF w)
-    (hlen : ∀ b, (C.shaHash b).length = 32) (hb58 : B58RoundTrip (serialize C w)) :
+    (hlen : ∀ b, (C.shaHash b).length = 32) :
     stringWallet C (HD.toString C w) = .ok w :=
-  stringWallet_toString C w hw hlen hb58
+  stringWallet_toString C w hw hlen (b58RoundTrip_of_ne _ (by simp [serialize, serializeBody]))
 
 /-- non-vacuity of `SerWF`: the private key with scalar 1 -/
 example : SerWF { chCode := List.replicate 32 0, key := 0 :: Spec.Bip32.ser256 1, pfx := Gen.HDConsts.pfxPrivate,
@@ -245,13 +329,25 @@ example : SerWF { chCode := List.replicate 32 0, key := 0 :: Spec.Bip32.ser256 1
 
 /-- WIF round trip: for a 32-byte key, any version byte, compressed or not: if `NewPrivateAddr` yields `pa`
     and `pa.String()` yields `s` then `DecodePrivateAddr(s)` yields exactly `pa` (same key, version, public
-    key, hash) — given the Base58 round trip of the 37/38-byte payload (named hypothesis, C15). -/
+    key, hash). Base58 layer included (C15's `Base58.decode_encode`). -/
 theorem wif_roundtrip (C : WalletCrypto) (key : Bytes) (ver : UInt8) (compr : Bool) (pa : PrivAddr) (s : Bytes)
     (hk : key.length = 32) (hlen : ∀ b, (C.shaHash b).length = 32)
-    (hnew : newPrivateAddr C key ver compr = .ok pa) (hs : privAddrString C pa = .ok s)
-    (hb58 : ∀ b, s = Base58.encode b → B58RoundTrip b) :
-    decodePrivateAddr C s = .ok (.ok pa) :=
-  wif_roundtrip_core C key ver compr pa s hk hlen hnew hs hb58
+    (hnew : newPrivateAddr C key ver compr = .ok pa) (hs : privAddrString C pa = .ok s) :
+    decodePrivateAddr C s = .ok (.ok pa) := by
+  refine wif_roundtrip_core C key ver compr pa s hk hlen hnew hs (fun b hb => b58RoundTrip_of_ne b ?_)
+  intro hb0
+  subst hb0
+  -- the encoded payload is never empty, so `s` is not the encoding of the empty string
+  unfold privAddrString at hs
+  split at hs
+  · simp only [Except.ok.injEq] at hs
+    rw [← hs] at hb
+    exact b58_encode_ne_nil _ (by simp) hb
+  · split at hs
+    · simp only [Except.ok.injEq] at hs
+      rw [← hs] at hb
+      exact b58_encode_ne_nil _ (by simp) hb
+    · simp at hs
 
 /-- non-vacuity: key 00…01 has a public key, so `NewPrivateAddr` succeeds -/
 example : (publicFromPrivate (Spec.Bip32.ser256 1) true).isSome = true := by
